@@ -37,6 +37,9 @@ func runOracle(oracle string, c *Case, lean *LeanDriver) Verdict {
 	case "concurrent":
 		return concurrentCase(c, lean)
 	case "kernel":
+		if c.Query == "kernel:coalesce" {
+			return coalesceKernel(c, lean)
+		}
 		return kernelCase(c, lean)
 	}
 	return Verdict{ID: c.ID, Query: c.Query, Oracle: oracle, Skipped: "unknown oracle"}
